@@ -414,3 +414,154 @@ Proof.
         (conj (proj1 AntlrProofs.ex_antlr_unknown_element) (proj1 AntlrProofs.ex_antlr_leading_zero)))))))))))).
 Qed.
 Print Assumptions C10_antlr_examples.
+
+(* ---- the ANTLR-generated LEXER ----
+   tucanLexer.py carries its automaton as a serialized ATN; harness/gen_antlr_lexer.py deserialises it with the
+   ANTLR runtime and dumps it into gen/AntlrLexer.v; Model/AntlrLex.v gives it meaning (epsilon closure, maximal
+   munch, the first rule wins, an error when no rule matches).  The theorems below say that, for EVERY text, this
+   automaton emits exactly the token types of the model lexer `Parse.lex_text` and fails exactly when it fails, so
+   that generated lexer + generated parser accept exactly the sentences of the grammar.  The generated automaton
+   enters only through the computed side conditions of Proofs/AntlrLexProofs.v (lexer_translated_ok,
+   lexer_rule_types_match, lexer_dead_ok, lexer_numerals_ok, lexer_symbols_ok, lexer_punct_ok, lexer_keywords_ok)
+   and of Proofs/AntlrLexFuel.v (lexer_fuel_ok). *)
+Require AntlrLex AntlrLexer AntlrLexGeneric AntlrLexProofs AntlrLexFuel.
+Import AntlrLex.
+
+(* side conditions, restated so that their assumptions are printed with the property *)
+Theorem C10_antlr_lex_translated : AntlrLexer.lexer_translated = true.
+Proof. exact AntlrLexProofs.lexer_translated_ok. Qed.
+Print Assumptions C10_antlr_lex_translated.
+
+Theorem C10_antlr_lex_rule_types_match :
+  map snd AntlrLexer.lexer_accept = map fst Antlr.antlr_literals ++ map fst Antlr.antlr_symbolic.
+Proof. exact AntlrLexProofs.lexer_rule_types_match. Qed.
+Print Assumptions C10_antlr_lex_rule_types_match.
+
+Theorem C10_antlr_lex_side_conditions :
+  AntlrLexGeneric.dead_check AntlrLexer.lexer_edges lexer_cfuel AntlrLexProofs.lexer_init = true /\
+  AntlrLexGeneric.numerals_check AntlrLexer.lexer_edges AntlrLexer.lexer_accept lexer_cfuel
+    AntlrLexProofs.lexer_init AntlrLexProofs.lexer_loop = true /\
+  AntlrLexGeneric.symbols_check AntlrLexer.lexer_edges AntlrLexer.lexer_accept lexer_cfuel AntlrLexProofs.lexer_init = true /\
+  AntlrLexGeneric.punct_check AntlrLexer.lexer_edges AntlrLexer.lexer_accept lexer_cfuel AntlrLexProofs.lexer_init = true /\
+  AntlrLexGeneric.keywords_check AntlrLexer.lexer_edges AntlrLexer.lexer_accept lexer_cfuel AntlrLexProofs.lexer_init = true.
+Proof.
+  exact (conj AntlrLexProofs.lexer_dead_ok (conj AntlrLexProofs.lexer_numerals_ok (conj AntlrLexProofs.lexer_symbols_ok
+        (conj AntlrLexProofs.lexer_punct_ok AntlrLexProofs.lexer_keywords_ok)))).
+Qed.
+Print Assumptions C10_antlr_lex_side_conditions.
+
+(* the closure fuel never runs out: every set of automaton states computed along any text is closed under epsilon *)
+Theorem C10_antlr_lex_fuel :
+  AntlrLexFuel.fuel_check AntlrLexer.lexer_edges lexer_cfuel AntlrLexer.lexer_start AntlrLexFuel.lexer_sets = true.
+Proof. exact AntlrLexFuel.lexer_fuel_ok. Qed.
+Print Assumptions C10_antlr_lex_fuel.
+
+Theorem C10_antlr_lex_sets_closed : forall l : text,
+  AntlrLexFuel.eps_closed AntlrLexer.lexer_edges
+    (AntlrLexFuel.run AntlrLexer.lexer_edges lexer_cfuel
+       (clos AntlrLexer.lexer_edges lexer_cfuel [AntlrLexer.lexer_start]) l) = true.
+Proof. exact AntlrLexFuel.antlr_lex_sets_closed. Qed.
+Print Assumptions C10_antlr_lex_sets_closed.
+
+(* one maximal-munch step (longest match, first rule wins) = one step of the model lexer *)
+Theorem C10_antlr_lex_step : forall l : text,
+  lex1_nfa AntlrLexer.lexer_edges AntlrLexer.lexer_accept lexer_cfuel AntlrLexProofs.lexer_init l =
+  match lex1 l with
+  | Some (k, rest) => match antlr_type k with Some ty => Some (ty, rest) | None => None end
+  | None => None
+  end.
+Proof. exact AntlrLexProofs.antlr_lex1_spec. Qed.
+Print Assumptions C10_antlr_lex_step.
+
+(* MAIN: for every text the generated lexer emits the token types of the model lexer, and fails when it fails *)
+Theorem C10_antlr_lex_spec : forall s : text,
+  antlr_lex s = match lex_text s with Some ts => antlr_types ts | None => None end.
+Proof. exact AntlrLexProofs.antlr_lex_spec. Qed.
+Print Assumptions C10_antlr_lex_spec.
+
+Theorem C10_antlr_lex_of_lex_text : forall s ts, lex_text s = Some ts ->
+  exists tys, antlr_lex s = Some tys /\ antlr_types ts = Some tys.
+Proof. exact AntlrLexProofs.antlr_lex_of_lex_text. Qed.
+Print Assumptions C10_antlr_lex_of_lex_text.
+
+Theorem C10_antlr_lex_some_iff : forall s tys,
+  antlr_lex s = Some tys <-> exists ts, lex_text s = Some ts /\ antlr_types ts = Some tys.
+Proof. exact AntlrLexProofs.antlr_lex_some_iff. Qed.
+Print Assumptions C10_antlr_lex_some_iff.
+
+Theorem C10_antlr_lex_error_iff : forall s, antlr_lex s = None <-> lex_text s = None.
+Proof. exact AntlrLexProofs.antlr_lex_error_iff. Qed.
+Print Assumptions C10_antlr_lex_error_iff.
+
+Theorem C10_antlr_lex_spells : forall s tys, antlr_lex s = Some tys ->
+  exists ts, s = print_tokens ts /\ AntlrProofs.tokens_ok ts /\ antlr_types ts = Some tys.
+Proof. exact AntlrLexProofs.antlr_lex_spells. Qed.
+Print Assumptions C10_antlr_lex_spells.
+
+(* end to end: generated lexer, then generated parser *)
+Theorem C10_antlr_lex_recognise_nfa_def : forall s,
+  AntlrLexProofs.antlr_recognise_nfa s =
+  match antlr_lex s with
+  | None => AntlrLexError
+  | Some tys => if antlr_accepts_types tys then AntlrAccept else AntlrSyntaxError
+  end.
+Proof. intros s. reflexivity. Qed.
+Print Assumptions C10_antlr_lex_recognise_nfa_def.
+
+Theorem C10_antlr_lex_recognise_nfa_eq : forall s, AntlrLexProofs.antlr_recognise_nfa s = antlr_recognise s.
+Proof. exact AntlrLexProofs.antlr_recognise_nfa_eq. Qed.
+Print Assumptions C10_antlr_lex_recognise_nfa_eq.
+
+Theorem C10_antlr_lex_recognise_nfa_iff_sentence_string : forall s,
+  AntlrLexProofs.antlr_recognise_nfa s = AntlrAccept <-> exists ts a, s = print_tokens ts /\ Sentence ts a.
+Proof. exact AntlrLexProofs.antlr_recognise_nfa_iff_sentence_string. Qed.
+Print Assumptions C10_antlr_lex_recognise_nfa_iff_sentence_string.
+
+Theorem C10_antlr_lex_recognise_nfa_iff_sentence : forall s,
+  AntlrLexProofs.antlr_recognise_nfa s = AntlrAccept <-> exists ts a, lex_text s = Some ts /\ Sentence ts a.
+Proof. exact AntlrLexProofs.antlr_recognise_nfa_iff_sentence. Qed.
+Print Assumptions C10_antlr_lex_recognise_nfa_iff_sentence.
+
+Theorem C10_antlr_lex_recognise_nfa_lex_error_iff : forall s,
+  AntlrLexProofs.antlr_recognise_nfa s = AntlrLexError <-> lex_text s = None.
+Proof. exact AntlrLexProofs.antlr_recognise_nfa_lex_error_iff. Qed.
+Print Assumptions C10_antlr_lex_recognise_nfa_lex_error_iff.
+
+Theorem C10_antlr_lex_recognise_nfa_syntax_error_iff : forall s,
+  AntlrLexProofs.antlr_recognise_nfa s = AntlrSyntaxError <->
+  exists ts, lex_text s = Some ts /\ forall a, ~ Sentence ts a.
+Proof. exact AntlrLexProofs.antlr_recognise_nfa_syntax_error_iff. Qed.
+Print Assumptions C10_antlr_lex_recognise_nfa_syntax_error_iff.
+
+Theorem C10_antlr_lex_recognise_nfa_accept_iff_ref_parse : forall s,
+  AntlrLexProofs.antlr_recognise_nfa s = AntlrAccept <->
+  (exists g, ref_parse s = inr g) \/
+  (exists e, ref_parse s = inl e /\ (e = ESelfLoop \/ e = EBadIndex \/ e = EDupAttr)).
+Proof. exact AntlrLexProofs.antlr_recognise_nfa_accept_iff_ref_parse. Qed.
+Print Assumptions C10_antlr_lex_recognise_nfa_accept_iff_ref_parse.
+
+(* non-vacuity: the automaton is run on texts and compared with the model lexer *)
+Theorem C10_antlr_lex_examples :
+  antlr_lex (t "C2H6O/(1-7)(2-7)") = AntlrLexProofs.model_types (t "C2H6O/(1-7)(2-7)") /\
+  option_map (@length Z) (antlr_lex (t "C2H6O/(1-7)(2-7)")) = Some 16%nat /\
+  antlr_lex (t "ClH/(10-200)") = AntlrLexProofs.model_types (t "ClH/(10-200)") /\
+  option_map (@length Z) (antlr_lex (t "ClH/(10-200)")) = Some 8%nat /\
+  antlr_lex (t "CHe/") = AntlrLexProofs.model_types (t "CHe/") /\
+  option_map (@length Z) (antlr_lex (t "CHe/")) = Some 3%nat /\
+  antlr_lex (t "radmass=13") = AntlrLexProofs.model_types (t "radmass=13") /\
+  option_map (@length Z) (antlr_lex (t "radmass=13")) = Some 4%nat /\
+  (antlr_lex (t "C01/") = None /\ lex_text (t "C01/") = None) /\
+  (antlr_lex (t "Xx") = None /\ lex_text (t "Xx") = None) /\
+  (antlr_lex (t "") = Some [] /\ lex_text (t "") = Some []) /\
+  AntlrLexProofs.antlr_recognise_nfa (t "C2H6O/(1-7)(2-7)") = AntlrAccept /\
+  AntlrLexProofs.antlr_recognise_nfa (t "HC/") = AntlrSyntaxError /\
+  AntlrLexProofs.antlr_recognise_nfa (t "C01/") = AntlrLexError.
+Proof.
+  exact (conj (proj1 AntlrLexProofs.ex_lex_ethanol) (conj (proj2 AntlrLexProofs.ex_lex_ethanol)
+        (conj (proj1 AntlrLexProofs.ex_lex_big_numbers) (conj (proj2 AntlrLexProofs.ex_lex_big_numbers)
+        (conj (proj1 AntlrLexProofs.ex_lex_helium) (conj (proj2 AntlrLexProofs.ex_lex_helium)
+        (conj (proj1 AntlrLexProofs.ex_lex_keywords) (conj (proj2 AntlrLexProofs.ex_lex_keywords)
+        (conj AntlrLexProofs.ex_lex_leading_zero (conj AntlrLexProofs.ex_lex_unknown_element
+        (conj AntlrLexProofs.ex_lex_empty AntlrLexProofs.ex_recognise_nfa))))))))))).
+Qed.
+Print Assumptions C10_antlr_lex_examples.
